@@ -90,3 +90,121 @@ Section QIdentity.
     lra.
   Qed.
 End QIdentity.
+
+(* ------------------------------------------------------------------ *)
+(* sums over lists of leaves *)
+Lemma qsum_app l1 l2 : (qsum (l1 ++ l2) == qsum l1 + qsum l2)%Q.
+Proof. induction l1 as [|x tl IH]; [cbn; ring|]. cbn [app]. rewrite !qsum_cons, IH. ring. Qed.
+
+Lemma qsum_ge {A} (F : A -> Q) c l : (forall x, In x l -> (c <= F x)%Q) ->
+  (c * inject_Z (Z.of_nat (length l)) <= qsum (map F l))%Q.
+Proof.
+  induction l as [|x tl IH]; intros H; [cbn; lra|].
+  cbn [map length]. rewrite qsum_cons, Nat2Z.inj_succ. unfold Z.succ. rewrite inject_Z_plus.
+  pose proof (H x (or_introl eq_refl)). pose proof (IH (fun y Hy => H y (or_intror Hy))).
+  change (inject_Z 1) with 1%Q. lra.
+Qed.
+
+Lemma split_one (l : list nat) a : NoDup l -> In a l ->
+  exists r, Permutation l (a :: r) /\ S (length r) = length l /\
+            forall k, In k r -> In k l /\ k <> a.
+Proof.
+  intros ND H. exists (remove Nat.eq_dec a l).
+  pose proof (remove_perm l a ND H) as P. split; [exact P|]. split.
+  - apply Permutation_length in P. cbn [length] in P. lia.
+  - intros k Hk. apply in_remove_iff in Hk. exact Hk.
+Qed.
+
+Lemma scale_count c (nU nD nC : nat) : (0 < c)%Q -> nC + 1 <= nU + nD ->
+  (c <= c * inject_Z (Z.of_nat nU) + c * inject_Z (Z.of_nat nD) - c * inject_Z (Z.of_nat nC))%Q.
+Proof.
+  intros Hc H.
+  assert (E : (inject_Z (Z.of_nat nU) + inject_Z (Z.of_nat nD) - inject_Z (Z.of_nat nC)
+               == inject_Z (Z.of_nat nU + Z.of_nat nD - Z.of_nat nC))%Q).
+  { unfold Z.sub. rewrite !inject_Z_plus, inject_Z_opp. ring. }
+  assert (L : (1 <= inject_Z (Z.of_nat nU + Z.of_nat nD - Z.of_nat nC))%Q).
+  { change 1%Q with (inject_Z 1). rewrite <- Zle_Qle. lia. }
+  rewrite <- E in L.
+  set (t := (inject_Z (Z.of_nat nU) + inject_Z (Z.of_nat nD) - inject_Z (Z.of_nat nC))%Q) in *.
+  assert (M : (c * 1 <= c * t)%Q) by (apply Qmult_le_l; assumption).
+  unfold t in M. lra.
+Qed.
+
+(* ------------------------------------------------------------------ *)
+(* Part 2: a tree seen from a node with three neighbours: U (towards a), the
+   hanging clade C, D (towards b) *)
+Section Shape.
+  Variables (U C D : tree) (ux uy f dl : Q).
+  Let S := Node U ux (Node C f D dl) uy.
+  Variable d : nat -> nat -> Q.
+  Variable n : nat.
+  Hypothesis ND : NoDup (leaves U ++ leaves C ++ leaves D).
+  Hypothesis HP : positive S.
+  Hypothesis Hd : forall x y, In x (leaves S) -> In y (leaves S) -> x <> y -> (d x y == tdist S x y)%Q.
+  Hypothesis Hn : Permutation (leaves S) (seq 0 n).
+
+  Lemma NDU : NoDup (leaves U). Proof. exact (NoDup_app_l _ _ ND). Qed.
+  Lemma NDCD : NoDup (leaves C ++ leaves D). Proof. exact (NoDup_app_r _ _ ND). Qed.
+  Lemma NDC : NoDup (leaves C). Proof. exact (NoDup_app_l _ _ NDCD). Qed.
+  Lemma NDD : NoDup (leaves D). Proof. exact (NoDup_app_r _ _ NDCD). Qed.
+  Lemma NDS : NoDup (leaves S). Proof. exact ND. Qed.
+
+  Lemma inU x : In x (leaves U) -> In x (leaves S).
+  Proof. intros H. unfold S. cbn [leaves]. apply in_or_app. left. exact H. Qed.
+  Lemma inC x : In x (leaves C) -> In x (leaves S).
+  Proof. intros H. unfold S. cbn [leaves]. apply in_or_app. right. apply in_or_app. left. exact H. Qed.
+  Lemma inD x : In x (leaves D) -> In x (leaves S).
+  Proof. intros H. unfold S. cbn [leaves]. apply in_or_app. right. apply in_or_app. right. exact H. Qed.
+
+  Lemma UC_neq x y : In x (leaves U) -> In y (leaves C) -> x <> y.
+  Proof. intros Hx Hy ->. apply (NoDup_app_disj _ _ y ND Hx). apply in_or_app. left. exact Hy. Qed.
+  Lemma UD_neq x y : In x (leaves U) -> In y (leaves D) -> x <> y.
+  Proof. intros Hx Hy ->. apply (NoDup_app_disj _ _ y ND Hx). apply in_or_app. right. exact Hy. Qed.
+  Lemma CD_neq x y : In x (leaves C) -> In y (leaves D) -> x <> y.
+  Proof. intros Hx Hy ->. exact (NoDup_app_disj _ _ y NDCD Hx Hy). Qed.
+
+  Lemma flagsU x : In x (leaves U) -> has U x = true /\ has C x = false /\ has D x = false.
+  Proof.
+    intros H. split; [exact (has_true _ _ H)|]. split; apply has_false; intros K.
+    - exact (UC_neq x x H K eq_refl). - exact (UD_neq x x H K eq_refl).
+  Qed.
+  Lemma flagsC x : In x (leaves C) -> has U x = false /\ has C x = true /\ has D x = false.
+  Proof.
+    intros H. split; [apply has_false; intros K; exact (UC_neq x x K H eq_refl)|].
+    split; [exact (has_true _ _ H)|apply has_false; intros K; exact (CD_neq x x H K eq_refl)].
+  Qed.
+  Lemma flagsD x : In x (leaves D) -> has U x = false /\ has C x = false /\ has D x = true.
+  Proof.
+    intros H. split; [apply has_false; intros K; exact (UD_neq x x K H eq_refl)|].
+    split; [apply has_false; intros K; exact (CD_neq x x K H eq_refl)|exact (has_true _ _ H)].
+  Qed.
+
+  Ltac tab X Y :=
+    destruct X as (X1 & X2 & X3); destruct Y as (Y1 & Y2 & Y3);
+    unfold S; cbn [tdist dep]; rewrite ?has_node, ?X1, ?X2, ?X3, ?Y1, ?Y2, ?Y3; cbn [orb andb];
+    rewrite ?X1, ?X2, ?X3, ?Y1, ?Y2, ?Y3; try reflexivity; try ring.
+
+  Lemma d_sym x y : In x (leaves S) -> In y (leaves S) -> x <> y -> (d x y == d y x)%Q.
+  Proof.
+    intros Hx Hy N. rewrite (Hd x y Hx Hy N), (Hd y x Hy Hx (fun E => N (eq_sym E))).
+    apply tdist_sym; [exact NDS|exact Hx|exact Hy].
+  Qed.
+
+  Lemma d_UU x y : In x (leaves U) -> In y (leaves U) -> x <> y -> (d x y == tdist U x y)%Q.
+  Proof. intros Hx Hy N. rewrite (Hd x y (inU x Hx) (inU y Hy) N). pose proof (flagsU x Hx) as X. pose proof (flagsU y Hy) as Y. tab X Y. Qed.
+  Lemma d_CC x y : In x (leaves C) -> In y (leaves C) -> x <> y -> (d x y == tdist C x y)%Q.
+  Proof. intros Hx Hy N. rewrite (Hd x y (inC x Hx) (inC y Hy) N). pose proof (flagsC x Hx) as X. pose proof (flagsC y Hy) as Y. tab X Y. Qed.
+  Lemma d_DD x y : In x (leaves D) -> In y (leaves D) -> x <> y -> (d x y == tdist D x y)%Q.
+  Proof. intros Hx Hy N. rewrite (Hd x y (inD x Hx) (inD y Hy) N). pose proof (flagsD x Hx) as X. pose proof (flagsD y Hy) as Y. tab X Y. Qed.
+  Lemma d_UC x y : In x (leaves U) -> In y (leaves C) -> (d x y == ux + uy + f + dep U x + dep C y)%Q.
+  Proof. intros Hx Hy. rewrite (Hd x y (inU x Hx) (inC y Hy) (UC_neq x y Hx Hy)). pose proof (flagsU x Hx) as X. pose proof (flagsC y Hy) as Y. tab X Y. Qed.
+  Lemma d_UD x y : In x (leaves U) -> In y (leaves D) -> (d x y == ux + uy + dl + dep U x + dep D y)%Q.
+  Proof. intros Hx Hy. rewrite (Hd x y (inU x Hx) (inD y Hy) (UD_neq x y Hx Hy)). pose proof (flagsU x Hx) as X. pose proof (flagsD y Hy) as Y. tab X Y. Qed.
+  Lemma d_CD x y : In x (leaves C) -> In y (leaves D) -> (d x y == f + dl + dep C x + dep D y)%Q.
+  Proof. intros Hx Hy. rewrite (Hd x y (inC x Hx) (inD y Hy) (CD_neq x y Hx Hy)). pose proof (flagsC x Hx) as X. pose proof (flagsD y Hy) as Y. tab X Y. Qed.
+  Lemma d_CU x y : In x (leaves C) -> In y (leaves U) -> (d x y == ux + uy + f + dep U y + dep C x)%Q.
+  Proof. intros Hx Hy. rewrite (d_sym x y (inC x Hx) (inU y Hy) (fun E => UC_neq y x Hy Hx (eq_sym E))). apply d_UC; assumption. Qed.
+  Lemma d_DU x y : In x (leaves D) -> In y (leaves U) -> (d x y == ux + uy + dl + dep U y + dep D x)%Q.
+  Proof. intros Hx Hy. rewrite (d_sym x y (inD x Hx) (inU y Hy) (fun E => UD_neq y x Hy Hx (eq_sym E))). apply d_UD; assumption. Qed.
+  Lemma d_DC x y : In x (leaves D) -> In y (leaves C) -> (d x y == f + dl + dep C y + dep D x)%Q.
+  Proof. intros Hx Hy. rewrite (d_sym x y (inD x Hx) (inC y Hy) (fun E => CD_neq y x Hy Hx (eq_sym E))). apply d_CD; assumption. Qed.
